@@ -116,7 +116,7 @@ class CosimEngine(Engine):
                        'kill_mid_row', 'kill_in_step_token', 'kill_row_boundary', 'kill_in_loop_line', 'kill_in_perf_table',
                        'kill_in_banner', 'banner_in_flight', 'kill_inside_a_multibyte_character', 'kill_lost_everything', 'error_exit', 'read_truncated_log', 'read_append_true_nonempty',
                        'read_append_false_nonempty', 'read_same_file_twice', 'short_read_source', 'buffered_source',
-                       'path_source', 'text_source', 'real_file_object_source', 'crlf_log', 'io_error_read_raised', 'path_of_a_file_that_does_not_exist_yet', 'differential_source_kinds', 'flatten_first_checked',
+                       'path_source', 'text_source', 'real_file_object_source', 'crlf_log', 'io_error_read_raised', 'refused_read_raised', 'path_of_a_file_that_does_not_exist_yet', 'differential_source_kinds', 'flatten_first_checked',
                        'flatten_last_checked', 'flatten_all_checked', 'flatten_overlap_checked',
                        'flatten_indices', 'whitespace_only_echo_line', 'perf_new', 'perf_old', 'perf_none',
                        'block_without_rows', 'screen_output_read', 'logfile_read_by_run',
@@ -304,6 +304,9 @@ class CosimEngine(Engine):
             stem, ext = _split_name(cfgname)
             future = cfgname if cfgname not in st['files'] else '%s-%d%s' % (stem, 1 + sum(1 for f in names if f.startswith(stem + '-')), ext)
             return {'from': 'future', 'name': future, 'kind': 'path', 'chunks': [1], 'bufsize': 1}
+        if not st['cfg']['fault_free'] and r.random() < 0.07:
+            # a source that cannot be opened at all: a pathlib.Path of a file that is not there, or a text-mode stream
+            return {'from': 'missing', 'kind': r.choice(['pathobj', 'textio']), 'chunks': [1], 'bufsize': 1}
         if names and r.random() < 0.75:
             src = {'from': 'file', 'name': r.choice(names)}
         else:
@@ -813,7 +816,50 @@ class CosimEngine(Engine):
         st['logs'].append(log)
         st['models'].append(model)
 
+    def _read_refused(self, ctx, st, log, model, src, append):
+        """The source cannot be opened.  The statement says nothing about a refused read; what the Log holds afterwards must
+        still be one thing or the other: everything it held (nothing happened), or - for append=False - nothing at all (the
+        replacement began).  Runs without their version, or a version without its runs, is neither."""
+        import copy as _copy
+        import io as _io
+        import pathlib
+        st['nsynth'] += 1
+        obj = pathlib.Path('no-such-log-%d.lammps' % st['nsynth']) if src['kind'] == 'pathobj' else _io.StringIO('LAMMPS (1 Jan 2020)\n')
+        ok, out = ctx.sut(log.read, obj) if append else ctx.sut(log.read, obj, append=False)
+        ctx.fault('unopenable_source')
+        if ok:
+            # taken after all: for the text stream that is a log with a banner and no run
+            if not append:
+                model.reset()
+            if src['kind'] != 'pathobj':
+                self._model_add(ctx, model, 'LAMMPS (1 Jan 2020)\n', 'textio')
+            self._check_log(ctx, log, model, 'after read(%s) of a source expected to be refused' % src['kind'])
+            return log
+        ctx.probe('refused_read_raised')
+        try:
+            self._check_log(ctx, log, model, 'after a refused read')
+        except Violation as v1:
+            if append:
+                raise Violation('C19.F', dict(v1.detail, what='a refused read(append=True) changed what the Log holds', first_mismatch=v1.detail.get('what'),
+                                              exception=type(out).__name__), klass='refused-read/' + v1.klass)
+            empty = LogModel()
+            try:
+                self._check_log(ctx, log, empty, 'after a refused read(append=False)')
+            except Violation:
+                raise Violation('C19.F', dict(v1.detail, what='after a refused read(append=False) the Log holds neither everything it held nor nothing',
+                                              first_mismatch=v1.detail.get('what'), exception=type(out).__name__,
+                                              nsims=len(log.simulations), version=log.lammps_version), klass='refused-read/' + v1.klass)
+            model.reset()
+        ctx.ev('op', 'read-refused', {'kind': src['kind'], 'append': append}, {'nsims': len(log.simulations), 'exc': type(out).__name__})
+        ctx.changes += 1
+        ctx.sig('read-refused', src['kind'], append, len(model.blocks))
+        return log
+
     def _read_into(self, ctx, st, log, model, src, append, tag, ctor=False):
+        if src['from'] == 'missing':
+            if ctor:
+                return False
+            return self._read_refused(ctx, st, log, model, src, append)
         data = self._source_text(ctx, st, src)
         if data is None:
             return False
@@ -924,7 +970,7 @@ class CosimEngine(Engine):
         tag = op['src'].get('name') or 'synth-%d' % st['nsynth']
         if self._read_into(ctx, st, log, model, op['src'], op['append'], tag) is False:
             return
-        if op.get('diff') and not (st.get('last_stream') is not None and getattr(st['last_stream'], 'io_errors', 0) > 0):
+        if op.get('diff') and op['src'].get('from') != 'missing' and not (st.get('last_stream') is not None and getattr(st['last_stream'], 'io_errors', 0) > 0):
             # the same bytes through another source kind must give bit-identical tables
             data = st['last_data']
             ref = ctx.must('C19.R', lmp.Log, io.BytesIO(data), klass='read/bytesio-ref')
